@@ -98,7 +98,8 @@ claim("C04", "other",
       "invariance of |NS|^2+|EW|^2. HvsrAzimuthal._check_input accepts an azimuth iff it lies in [0, 180] (ValueError otherwise) and anything but an HvsrTraditional is a TypeError. "
       "Bounded (labelled): the processing-level consequences (azimuthal = stack of single-azimuth results, RotDpp "
       "within [min,max] over azimuths and non-decreasing in the percentile, rotation-invariant methods and diffuse field independent of "
-      "orientation, preprocessing orients every record incl. target 0) evaluated natively.",
+      "orientation, preprocessing orients every record incl. target 0) evaluated natively."
+      "Added after the second round of seeded changes: the SeismicRecording3C.split contract (orientation carried over) is discharged here too, and a bounded clause checks that windows, copies and reloaded recordings keep the orientation of their source (re-orienting them recovers polarised motion).",
       TB + "cos/sin uninterpreted; only the named identities (Pythagoras, angle addition, parity, periodicity) are assumed, each lemma lists the instances it uses.",
       "contract-based deductive verification (z3+cvc5, nonlinear real lemmas over trig axioms) + bounded native evaluation of processing-level consequences", "DESIGN.md 5/C04")
 
@@ -115,7 +116,8 @@ claim("C05", "other",
       "windows after random histories (peak-range updates, frequency-domain rejection, manual rejections, mask replacement), equals the "
       "statistic of an object built from the accepted windows alone, accessors are read-only, lognormal frequency/period consistency. The "
       "mask selections of the accessors, the curve statistics (axis=0), np.cov and the explicitly weighted (azimuthal) uses are bounded only. "
-      "Known finding F-9 is reported by its own clause.",
+      "Known finding F-9 is reported by its own clause."
+      "A further bounded clause: the fn statistics ignore accepted windows that have no peak in the range (mean / std / n-th std over the accepted windows that have one).",
       TB + "numpy nansum / cov external; the cross-check bound: 4-11 windows x 20-50 samples, up to 6 history steps per object.",
       "contract-based deductive verification of the distribution-dependent formulas + native evaluation of the estimator contracts over mask histories", "DESIGN.md 5/C05")
 
@@ -217,7 +219,8 @@ claim("C09", "other",
       "settings object only fft_settings is written. Bounded (labelled): deep snapshots (samples, dt, orientation, metadata) around "
       "process() for 11 methods x tapers x azimuth sets, a second identical call returns identical values, a returned result (values and "
       "meta) is unchanged when recordings and settings are mutated afterwards, 36 jobs interleaved in random orders return what they "
-      "return alone (hidden state between calls). Known finding F-15 (fft_settings={'n': None} is not kept across calls) reported by its own clause.",
+      "return alone (hidden state between calls). Known finding F-15 (fft_settings={'n': None} is not kept across calls) reported by its own clause."
+      "The module-level-state obligation includes escape of module-level mutables (stored into an object or returned); the interleaved-jobs clause has one job longer than the 32768 FFT floor.",
       "Trusted: the analysis' table of allocating calls and copying constructors (the latter proved in C18/C04), scalar hints for index/count locals, numpy determinism.",
       "frame/ownership obligations by may-alias analysis of the AST (contract frames) + bounded native snapshot checks", "DESIGN.md 5/C09")
 
@@ -229,7 +232,8 @@ claim("C15", "other",
       "file unconditionally (None included); the type-dispatching reader's discriminator table selects the eight classes and loads. Bounded "
       "(labelled; json is external): real save/load and reader round trips of random legal attribute values (arrays, lists, tuples, None, "
       "dicts; set by constructor and by assignment) for the 8 classes compared by content, processing / preprocessing with the reloaded "
-      "settings identical, and cross-object / caller-argument / later-default independence by mutating every attribute in place or by assignment.",
+      "settings identical, and cross-object / caller-argument / later-default independence by mutating every attribute in place or by assignment."
+      "Fractional azimuth sets are among the legal values.",
       "Trusted: deepcopy / np.array allocate at every level; json; the table of immutable (number/string/boolean/None) parameters; the AST matcher.",
       "structural contract obligations on constructor/serialisation ASTs + bounded native round-trip and aliasing checks", "DESIGN.md 5/C15")
 
@@ -240,7 +244,8 @@ claim("C12", "other",
       "assignment. Bounded (labelled; savetxt/loadtxt/json/regex are external): real write/read round trips - traditional after random "
       "histories (range updates, FDWRA, manual, mask replacement, accepted windows without a peak), azimuthal (1-4 azimuths incl. non-integer, "
       "unequal counts, ranges, masks), diffuse field - comparing frequencies, curves bit for bit, masks, search range, peaks and every statistic, "
-      "plus the file's columns against the written object.",
+      "plus the file's columns against the written object."
+      "The azimuthal histories include the library's own frequency-domain rejection with a search range (defect F-17, repaired).",
       "Trusted: numpy text I/O at '%.18e', json, the header regex; the AST matcher.",
       "structural contract obligations on writer/reader ASTs + bounded native round trips", "DESIGN.md 5/C12")
 
@@ -256,7 +261,8 @@ claim("C07", "other",
       "mismatches - and miniSEED (one and three files) / SAC (both byte orders) written with obspy in all 6 trace / file orders with 4 "
       "channel-naming variants, the GCF example, duplicated component, unrecognised file; read() with scalar / list / tuple / array / numpy "
       "scalar / 0 orientations and per-recording options: components hold exactly the stored samples (single precision for the integer text "
-      "formats), the file's time step and the right orientation.",
+      "formats), the file's time step and the right orientation."
+      "Explicit degrees_from_north=0 / 0.0 is part of every format's clause.",
       "Trusted: re, obspy (also used to write the binary test files), float32 rounding; GCF only from the one example file (obspy cannot write GCF).",
       "contract proofs of the count check and of the trace-to-component assignment (exhaustive case split) + structural obligations + bounded grammar-based native reader checks", "DESIGN.md 5/C07")
 
@@ -270,7 +276,8 @@ claim("C14", "other",
       "returned indices are the sensors strictly inside the boundary, all invariant under sensor order, translation up to 1e4 x the extent and "
       "scaling by 1e-3..1e3. Bounded also: montecarlo_fn / _statistics equal the weighted mean and reliability-weighted standard deviation of "
       "the realisations in the requested space for all four generator / spatial combinations, are reproducible for a seeded generator, "
-      "invariant to weight scale, and reduce to the closed form for zero standard deviations; unknown distribution names raise.",
+      "invariant to weight scale, and reduce to the closed form for zero standard deviations; unknown distribution names raise."
+      "Integer-valued and list inputs must give what the same numbers as floats give.",
       "Trusted: scipy.spatial.Voronoi, shapely, numpy Generator; the clipping oracle. Bounds: 4-11 sensors inside 4 hull families, 2-7 generators x 1-400 realisations.",
       "contract-based deductive verification of the weighted statistics function + lemmas (z3+cvc5) + bounded native comparison of the geometric half with an independent clipping oracle", "DESIGN.md 5/C14")
 
@@ -281,7 +288,8 @@ claim("C19", "other",
       "writes module-level state. A task's output is therefore a function of its file and of the settings content as loaded, whatever the "
       "chunking, order or worker count (A-POOL). Bounded (labelled, samples schedules): the real entry point on 3 generated miniSEED files "
       "(different sampling rates and lengths) for 4 / 36 order x --nproc x settings-family schedules, every CSV byte-identical to the "
-      "single-file pipeline run in a fresh interpreter with freshly loaded settings.",
+      "single-file pipeline run in a fresh interpreter with freshly loaded settings."
+      "A third settings family carries an fft_settings dictionary with 70 s windows (the long file needs a longer FFT than the others).",
       "Trusted: A-POOL, deepcopy, numpy/scipy determinism, the AST matcher.",
       "structural contract obligations (history independence by construction) + bounded runs of the real CLI", "DESIGN.md 5/C19")
 
